@@ -6,7 +6,7 @@ func init() {
 	register(propSpec{
 		ID: "C03", Level: "exploration",
 		Pkgs:    []pkgSpec{{Dir: "sdk/go/keepclient", Race: true}},
-		Batches: 16, BatchesT: 16, Timeout: 10 * time.Minute, TimeoutT: 60 * time.Minute,
+		Batches: 16, BatchesT: 16, Timeout: 20 * time.Minute, TimeoutT: 120 * time.Minute,
 		MinEvals: 5000,
 		Rule: "case = (1-3 unique blocks with/without size hint, 1-4 fake Keep services on real loopback HTTP servers, Retries 0-3, BlockCache size, " +
 			"1-4 rounds; per round a per-(block,service) script of answers drawn from {ok, flipped bits, short/long body with consistent length, declared length longer than sent then close, " +
